@@ -40,6 +40,7 @@ seed: `context-dependent|<direction>|<annotation skeleton>|<value head>`).
 """
 from __future__ import annotations
 
+import zlib
 import collections
 import random
 
@@ -63,9 +64,13 @@ def build_module(pairs):
   layout = []
   for i, (ann, val) in enumerate(pairs):
     lay = {}
-    lines.append(f"def g_{i}(x: {ann}): pass")
+    # the argument site rotates through four binding forms, chosen by the pair's text (so the same pair gets the
+    # same form in a shared module and alone): positional, by keyword, keyword-only, keyword-only after *args
+    form = zlib.crc32(f"{ann}|{val}".encode()) % 4
+    sig, call = [("x: {a}", "{v}"), ("x: {a}", "x={v}"), ("*, x: {a}", "x={v}"), ("*rest, x: {a}", "x={v}")][form]
+    lines.append(f"def g_{i}({sig.format(a=ann)}): pass")
     d = len(lines)
-    lines.append(f"g_{i}({val})")
+    lines.append(f"g_{i}({call.format(v=val)})")
     lay["arg"] = (d, d + 1)
     lines.append(f"def r_{i}() -> {ann}:")
     d = len(lines)
